@@ -15,6 +15,7 @@ expressions.  The `rejects_*` examples are the shapes goose must (and does) refu
 -/
 import GooseVerif.Lemmas.Tr
 import GooseVerif.Lemmas.Arith
+import GooseVerif.Props.C01Scope
 import GooseVerif.Gen.Guards
 import GooseVerif.Expected.Guards
 import GooseVerif.Gen.OpTables
@@ -29,6 +30,11 @@ open GooseVerif.Model.Tr
 `endsWithReturn`, `stmtsEndWithReturn`, `blockStmt`, `branchStmt`, `returnExpr`) are, up to
 formatting, the committed expectation. -/
 theorem control_flow_facts_ok : Gen.Guards.controlFlow = Expected.Guards.controlFlow := rfl
+
+/-- The functions the scoping model (Model/Scope.lean; theorems in Props/C01Scope.lean: `scoping_sound`,
+`leak_is_unsound`, …) was written from — `varSpec`, `varDeclStmt`, `defineStmt`, `assignStmt`,
+`assignFromTo`, `pointerAssign`, `identExpr`, `referenceTo` — are the committed expectation. -/
+theorem scoping_facts_ok : Gen.Guards.scoping = Expected.Guards.scoping := rfl
 
 /-- The operator tables of `binExpr`, `assignStmt` and of the printer are the committed expectation. -/
 theorem op_tables_facts_ok :
